@@ -384,5 +384,6 @@ func TestPropCertForgery(t *testing.T) {
 
 func TestReplay(t *testing.T) {
 	prog.Replay(t, "C02", "TestPropCertMonitor", runMonitor)
+	prog.Replay(t, "C02", "TestPropCertMonitorBig", runMonitor)
 	prog.Replay(t, "C02", "TestPropCertForgery", runForge)
 }
